@@ -324,7 +324,7 @@ private:
   std::vector<std::shared_ptr<ThreadContext>> _thread_contexts; /**< The registered contexts */
   Spinlock _spinlock; /**< Protect access when register contexts or removing contexts */
   std::atomic<bool> _new_thread_context_flag{false};
-  std::atomic<uint8_t> _invalid_thread_context_count{0};
+  std::atomic<uint32_t> _invalid_thread_context_count{0};
 };
 
 class ScopedThreadContext
